@@ -552,22 +552,22 @@ theorem stream_inv {K : KeySetOps B} (hK : K.Lawful) {b : Builder B} {es : List 
       exact ⟨hpp, hbk⟩
 
 /-- well-formed use of the builder: plain adds and complete stream writes -/
-inductive Item where
+inductive Put where
   | add (key : Nat) (value : Bytes)
   | stream (key : Nat) (chunks : List Bytes)
 
-def Item.ops : Item → List Op
+def Put.ops : Put → List Op
   | .add k v => [.add k v]
   | .stream k ds => .prepare k :: (ds.map .write ++ [.commit])
 
 /-- the entry an item stands for: a stream write is the concatenation of its chunks -/
-def Item.entry : Item → Nat × Bytes
+def Put.entry : Put → Nat × Bytes
   | .add k v => (k, v)
   | .stream k ds => (k, ds.flatten)
 
-theorem items_inv {K : KeySetOps B} (hK : K.Lawful) : ∀ (items : List Item) {b : Builder B} {es : List (Nat × Bytes)},
-    Inv K b es → ∃ b', Builder.run K b (items.flatMap Item.ops) = some b' ∧
-      Inv K b' ((items.map Item.entry).foldl acceptStep es) := by
+theorem items_inv {K : KeySetOps B} (hK : K.Lawful) : ∀ (items : List Put) {b : Builder B} {es : List (Nat × Bytes)},
+    Inv K b es → ∃ b', Builder.run K b (items.flatMap Put.ops) = some b' ∧
+      Inv K b' ((items.map Put.entry).foldl acceptStep es) := by
   intro items
   induction items with
   | nil => intro b es h; exact ⟨b, rfl, h⟩
@@ -579,13 +579,13 @@ theorem items_inv {K : KeySetOps B} (hK : K.Lawful) : ∀ (items : List Item) {b
       obtain ⟨b1, h1, h2⟩ := add_inv hK h k v
       obtain ⟨b2, h3, h4⟩ := ih h2
       refine ⟨b2, ?_, h4⟩
-      simp only [Item.ops, Builder.run, Builder.step, h1, Option.bind]
+      simp only [Put.ops, Builder.run, Builder.step, h1, Option.bind]
       exact h3
     | stream k ds =>
       obtain ⟨b1, h1, h2⟩ := stream_inv hK h k ds
       obtain ⟨b2, h3, h4⟩ := ih h2
       refine ⟨b2, ?_, h4⟩
-      simp only [Item.ops, h1, Option.bind]
+      simp only [Put.ops, h1, Option.bind]
       exact h3
 
 /-! ## Close → file → reader -/
@@ -1045,26 +1045,26 @@ theorem encodeOffsets_length_le (values : List Nat) (max : Nat) :
 
 /-- any well-formed use of the builder ends in a state holding the accepted entries; if there is
 at least one item the file is written and the reader opened on it holds exactly those entries -/
-theorem build_ok {K : KeySetOps B} (hK : K.Lawful) (items : List Item) :
-    ∃ b, Builder.run K (Builder.init K) (items.flatMap Item.ops) = some b ∧
-      Inv K b (accepted (items.map Item.entry)) ∧
-      (items ≠ [] → (∀ it ∈ items, it.entry.1 < 4294967296) → SizeOK (accepted (items.map Item.entry)) →
+theorem build_ok {K : KeySetOps B} (hK : K.Lawful) (items : List Put) :
+    ∃ b, Builder.run K (Builder.init K) (items.flatMap Put.ops) = some b ∧
+      Inv K b (accepted (items.map Put.entry)) ∧
+      (items ≠ [] → (∀ it ∈ items, it.entry.1 < 4294967296) → SizeOK (accepted (items.map Put.entry)) →
         ∃ file r, b.close K = some file ∧ Reader.open K file = some r ∧
-          TableRepr K r (accepted (items.map Item.entry))) := by
+          TableRepr K r (accepted (items.map Put.entry))) := by
   obtain ⟨b, hrun, hinv0⟩ := items_inv hK items (inv_init K hK)
-  have hinv : Inv K b (accepted (items.map Item.entry)) := hinv0
+  have hinv : Inv K b (accepted (items.map Put.entry)) := hinv0
   refine ⟨b, hrun, hinv, ?_⟩
   intro hne hkeys hsz
-  have hane : accepted (items.map Item.entry) ≠ [] := accepted_ne_nil _ (by simpa using hne)
+  have hane : accepted (items.map Put.entry) ≠ [] := accepted_ne_nil _ (by simpa using hne)
   apply close_open hK hinv hane
   · intro e he
     have := accepted_subset _ e he
     obtain ⟨it, hit, rfl⟩ := List.mem_map.mp this
     exact hkeys it hit
-  · have h1 : b.size = ((accepted (items.map Item.entry)).map (·.2)).flatten.length := by
+  · have h1 : b.size = ((accepted (items.map Put.entry)).map (·.2)).flatten.length := by
       rw [hinv.pre.size, hinv.pre.written]; simp
     have h2 := encodeOffsets_length_le b.offsets b.offMax
-    have h3 : b.offsets.length = (accepted (items.map Item.entry)).length := by
+    have h3 : b.offsets.length = (accepted (items.map Put.entry)).length := by
       rw [hinv.pre.offsets, startsFrom_length, List.length_map]
     unfold SizeOK at hsz
     omega
